@@ -59,6 +59,16 @@ Definition agree_sort (start : N) (its : list (list cm)) (o : otree) : bool :=
     | _ => otree_eqb o (T [L 1])
     end.
 
+(* variants 4..6: SequentialMultiIterator::new_or_single_it over outer iterators with inexact (truthful) size hints:
+   4 = filter (0, Some n); 5 = peekable after one peek (1, Some n) / (0, Some 0); 6 = (1, None) / (0, None) *)
+Definition hint_of (variant n : N) : N * option N :=
+  match variant with
+  | 4 => (0, Some n)
+  | 5 => if n =? 0 then (0, Some 0) else (1, Some n)
+  | 6 => if n =? 0 then (0, None) else (1, None)
+  | _ => (n, Some n)
+  end.
+
 Definition agree_C09 (c : case_C09) (o : otree) : bool :=
   let '(variant, start, raw) := c in
   let its := tag_its 0 raw in
@@ -69,7 +79,8 @@ Definition agree_C09 (c : case_C09) (o : otree) : bool :=
          | _ => agree_sort start its o
          end
   | 2 => otree_eqb o (o_res (seq_run cm_set_index start its))
-  | _ => otree_eqb o (o_res (seq_run_or_single cm_set_index start its))
+  | 3 => otree_eqb o (o_res (seq_run_or_single cm_set_index start its))
+  | _ => otree_eqb o (o_res (seq_run_or_single_h cm_set_index (hint_of variant (N.of_nat (length its))) start its))
   end.
 
 (* diagnostics: one of the model's runs *)
@@ -83,5 +94,6 @@ Definition run_C09 (c : case_C09) : otree :=
          | _ => o_res (run_first c_rt cm_set_index (length (concat its)) start (new_heap its))
          end
   | 2 => o_res (seq_run cm_set_index start its)
-  | _ => o_res (seq_run_or_single cm_set_index start its)
+  | 3 => o_res (seq_run_or_single cm_set_index start its)
+  | _ => o_res (seq_run_or_single_h cm_set_index (hint_of variant (N.of_nat (length its))) start its)
   end.
